@@ -82,10 +82,13 @@ def run(ctx):
         "over non-dyadic float64 rectangles, after every mutation Size/All and all 16 queries are compared with a "
         "linear scan using the library's own geom predicates on the same float values, probed at and one ulp around "
         "the right/bottom edges of the stored rectangles and of their union",
-        "floatscan domain: |coordinates| <= about 1e6 and sizes >= 1e-3 or <= 0, i.e. no rectangle whose positive "
-        "width/height is absorbed by rounding (fl(X+Width) == X). For such rectangles geom itself is inconsistent "
-        "(r.Contains(r) is true, r.Intersects(r) is false) and ContainsRect/ContainedByRect queries prune them away; "
-        "reproducer kept in corpus/C07/pending.floatscan-absorbed-width.ops (not run), reported to the coordinator",
+        "floatscan judged domain: every history whose STORED rectangles all have a representable point (sizes down "
+        "to one ulp of the coordinate, magnitudes 1e-12 .. 1e16 are generated). A rectangle whose positive "
+        "width/height is absorbed by rounding (fl(X+Width) == X) is non-Empty and Contains itself although nothing "
+        "Intersects it, so the Intersects-based pruning of ContainsRect/ContainedByRect loses it: KNOWN FINDING, its "
+        "three inputs run on every check from corpus/C07/floatscan.known-absorbed-width.ops and are matched against "
+        "known_findings.json (any other failing history is a VIOLATION); probe rectangles derived by the harness "
+        "are dropped when absorbed",
     ]
     ctx.lean(props=["Props.C07"], drivers=["drv_c07"])
     ctx.harness("./cmd/c07")
